@@ -185,6 +185,10 @@ impl DefaultIndexStore {
         lengths: FieldLengths,
     ) -> Result<DefaultReadonlyIndex, DefaultIndexStoreError> {
         let op_link_file = self.op_links_dir().join(op_id.hex());
+        #[cfg(jj_vcs_jj_verif)]
+        crate::verif::point("index:read_op_link", &op_link_file)
+            .context(&op_link_file)
+            .map_err(DefaultIndexStoreError::LoadAssociation)?;
         let data = fs::read(&op_link_file)
             .context(&op_link_file)
             .map_err(DefaultIndexStoreError::LoadAssociation)?;
